@@ -27,7 +27,8 @@ def run(chk, tier):
     chk.rule("R-SIBLING", "file and buffer export variants make the same preparatory calls")
     lists.sibling_prep(chk, P, [("hwloc_topology_export_xml", "hwloc_topology_export_xmlbuffer", "topology-xml.c")])
     chk.rule("R-UNLINK", "list removal updates both directions")
-    lists.list_unlink(chk, P, ["hwloc_distances_release_remove", "hwloc_internal_distances_refresh"], "distances.c")
+    nu = lists.list_unlink(chk, P, [], "distances.c")
+    chk.floor("R-UNLINK", "removal sites of the distances list", nu, 1)
     chk.rule("R-ATOMIC", "argument failures of the add steps happen before the list is linked")
     atomic.check(chk, P, E, "hwloc_distances_add_create", "distances.c", atomic.topo_writes(E, arg_indices=(0,), ignore_paths=("next_dist_id",)), only_errno=22)
     chk.decided += ["invalid kinds / unknown flags rejected with EINVAL before any effect (all words)", "*nr reports the number of matches even when the array is smaller (capacity dataflow)",
